@@ -276,14 +276,36 @@ func Explore(t *testing.T, cfg Config) Stats {
 	}
 	root := workItem{}
 	process(root, a)
-	if cfg.Shard != 0 {
-		// other shards only derive the level-1 subtrees from the default run
-		st.Executions, st.Deviating, st.ByCost, st.Outcomes = 0, 0, make([]int64, cfg.Bound+1), map[string]int64{}
-		st.Violations = nil
-		seenViol = map[string]bool{}
-	}
 	if cfg.NShards > 1 {
-		// distribute level-1 subtrees round-robin
+		// Phase 1 (identical in every shard, counted by shard 0 only): expand the
+		// tree lowest-deviation-first until there are enough pending subtrees to
+		// balance the shards, then deal them out round-robin.
+		pending := func() int {
+			n := 0
+			for _, b := range buckets {
+				n += len(b)
+			}
+			return n
+		}
+		target := 64 * cfg.NShards
+		for pending() > 0 && pending() < target {
+			c := 0
+			for len(buckets[c]) == 0 {
+				c++
+			}
+			n := len(buckets[c])
+			it := buckets[c][n-1]
+			buckets[c] = buckets[c][:n-1]
+			process(it, RunOnce(t, cfg, it.prefix, false))
+			if len(st.EngineErrors) > 3 {
+				return st
+			}
+		}
+		if cfg.Shard != 0 {
+			st.Executions, st.Deviating, st.ByCost, st.Outcomes = 0, 0, make([]int64, cfg.Bound+1), map[string]int64{}
+			st.Violations = nil
+			seenViol = map[string]bool{}
+		}
 		idx := 0
 		for c := range buckets {
 			var keep []workItem
